@@ -115,13 +115,19 @@ def replay_conn(chk, g, ik, c, ctype, P, rng, max_states, deviate=None, report=T
 
 
 # ------------------------------------------------------------------ A2: undelayed twins
-def twin_run(chk, rng, ctype, sk, dt, steps, batch, report=True, corrupt=False, smode=None, drift=0.0):
+def twin_run(chk, rng, ctype, sk, dt, steps, batch, report=True, corrupt=False, smode=None, drift=0.0, dbl=None, maxk=None):
     """delayed connection vs one real undelayed twin per distinct delay value"""
     D = 4
     P = SynParams(D=D, **dict(PARAM_SETS[rng.randrange(len(PARAM_SETS))], dt=dt))
-    maxk = rng.choice([1, 2, 3])
+    maxk = maxk or rng.choice([1, 2, 3])
     cf = {"sk": sk, "dtk": D, "dly": maxk * D, "smode": smode or rng.choice(["previous", "nearest"]), "tol2": 1,
           "cob": "val", "sob": "f"}
+    # a quarter of the runs live in float64 with the synapse's default interpolation tolerance (0): delays of exactly
+    # k * dt in double precision are ON the grid and must shift by exactly k steps (a float32 round trip of the
+    # selector anywhere would move them off it)
+    dbl = ((not corrupt) and drift == 0.0 and rng.random() < 0.25) if dbl is None else dbl
+    if dbl:
+        cf["tol2"] = 0
     from inferno import neural
     from ..impl_delayconn import partial_synapse
     if ctype == "conv":
@@ -156,6 +162,8 @@ def twin_run(chk, rng, ctype, sk, dt, steps, batch, report=True, corrupt=False, 
         delayed.synapse.delay = cf["dly"] * P.tick
     else:
         delayed = make(cf["dly"] * P.tick)
+    if dbl:
+        delayed = delayed.double()
     wshape = tuple(delayed.weight.shape)
     Wt = (torch.randint(-4, 5, wshape, generator=gen).float() / 4.0)
     dk = torch.randint(0, maxk + 1, wshape, generator=gen)
@@ -164,10 +172,13 @@ def twin_run(chk, rng, ctype, sk, dt, steps, batch, report=True, corrupt=False, 
         dk = torch.full(wshape, rng.randint(0, maxk))
     else:
         dk.reshape(-1)[rng.randrange(dk.numel())] = maxk      # some synapse sits at the supported maximum
-    delayed.weight = Wt.clone()
+    delayed.weight = Wt.clone().to(delayed.weight.dtype)
     # drift: the learned delays lie a fraction of a step off their grid point, inside the synapse's interpolation
     # tolerance (1/8 step), above it except at the maximum (C02: within tolerance of the grid IS the grid point)
-    delayed.delay = (dk.float() + drift * torch.where(dk < maxk, 1.0, -1.0)) * (D * P.tick)
+    if dbl:
+        delayed.delay = dk.double() * (D * P.tick)
+    else:
+        delayed.delay = (dk.float() + drift * torch.where(dk < maxk, 1.0, -1.0)) * (D * P.tick)
     bias = delayed.bias.detach().clone()
     Wt = delayed.weight.detach().clone()           # (lateral: masked)
     dk = (delayed.delay.detach() / (D * P.tick)).round().long()
@@ -175,6 +186,8 @@ def twin_run(chk, rng, ctype, sk, dt, steps, batch, report=True, corrupt=False, 
         tw = {}
         for k in sorted(set(dk_.reshape(-1).tolist())):
             t = make(None)
+            if dbl:
+                t = t.double()
             t.weight = Wt * (dk_ == k)
             t.bias = torch.zeros_like(bias)
             tw[k] = t
@@ -185,14 +198,15 @@ def twin_run(chk, rng, ctype, sk, dt, steps, batch, report=True, corrupt=False, 
     xhist = []                             # input spikes since the start / the last clear
     worst = None
     for step in range(steps):
-        x = (torch.rand((batch,) + inshape, generator=gen) < 0.4).float()
+        x = (torch.rand((batch,) + inshape, generator=gen) < 0.4).to(delayed.weight.dtype)
         if step == steps // 2 and rng.random() < 0.5:
             delayed.clear()
             if rng.random() < 0.6:
                 # the learned delays are REPLACED through the public setter in mid-run (as an updater does); from the
                 # cleared state on, the connection must shift by the new delays
                 dk2 = torch.randint(0, maxk + 1, wshape, generator=gen)
-                delayed.delay = (dk2.float() + drift * torch.where(dk2 < maxk, 1.0, -1.0)) * (D * P.tick)
+                delayed.delay = (dk2.double() * (D * P.tick)) if dbl else \
+                    (dk2.float() + drift * torch.where(dk2 < maxk, 1.0, -1.0)) * (D * P.tick)
                 dk = (delayed.delay.detach() / (D * P.tick)).round().long()
                 twins = build_twins(dk)
                 relearned = True
@@ -252,7 +266,7 @@ def twin_run(chk, rng, ctype, sk, dt, steps, batch, report=True, corrupt=False, 
                              "expected": want.int().reshape(-1).tolist()}
                     break
     cfg = {"conn": CONN_CLASS[ctype], "syn": sk, "dt": dt, "batch": batch, "delays_steps": dk.reshape(-1).tolist(),
-           "max_delay_steps": maxk, "homogeneous": homogeneous, "params": P.asdict(), "delays_replaced_in_mid_run": relearned}
+           "max_delay_steps": maxk, "homogeneous": homogeneous, "params": P.asdict(), "delays_replaced_in_mid_run": relearned, "float64": dbl}
     if worst and report:
         chk.violation({"clause": "ShiftEq", "site": "undelayed-twin", "conn": CONN_CLASS[ctype], "syn": sk,
                        "delayed": True, "view": worst.get("view", "output")}, dict(cfg, **worst))
@@ -368,6 +382,13 @@ def run(tier: str, seed: int) -> int:
         for dt in (0.3, 1.1, 0.7):
             twin_run(chk, rng, rng.choice(["dense", "lateral"]), sk, dt, steps=8 if tier == "quick" else 14,
                      batch=rng.choice([1, 2]), smode="previous", drift=rng.choice([0.0, 0.04, 0.08]))
+            nruns += 1
+    # float64 connections, default tolerance, 'previous' rule, delays up to 3 / 6 steps of step times whose multiples
+    # are not float32 numbers: on the grid in double precision, hence an exact shift
+    for sk in sorted(ALL):
+        for dt, mk in ((0.1, 3), (1.3, 6), (0.7, 3)):
+            twin_run(chk, rng, rng.choice(["dense", "lateral", "direct"]), sk, dt, steps=10 if tier == "quick" else 16,
+                     batch=rng.choice([1, 2]), smode="previous", dbl=True, maxk=mk)
             nruns += 1
     chk.extra["twin_runs"] = nruns
     chk.note(f"undelayed-twin runs: {nruns}")
